@@ -289,24 +289,87 @@ def check_timeouts(chk, quick):
                 s.close()
 
 
+def check_generated(chk, quick):
+    """generated machines made to exercise the clock (machgen.timify: Task TimeoutSeconds with worker delays on both
+    sides of the deadline or no answer at all, Wait states of all four forms in assorted offset notations, non-default
+    reply delays, States.Timeout in Retry / Catch lists) run on the engine under the canonical schedule; every instant
+    — each history event's timestamp, each request's arrival at its worker, the terminal notification's stopDate —
+    is compared exactly with what `Asl.run` predicts"""
+    from props import c01
+    import machgen
+    n = 500 if quick else 12000
+    cases = [c01.gen_case(chk.rng, chk.rng.choice([0, 1, 2]), timed=True) for _ in range(n)]
+    runs, lines = [], []
+    for c in cases:
+        r = enginerun.run_case(c["machine"], c["input"], c["plans"], max_steps=3000)
+        runs.append(r)
+        lines.append(c01.model_line(c["machine"], c["input"], r.exec_arn, r.plans.oracle()))
+        r.sim.close()
+    for c, r, a in zip(cases, runs, common.driver(lines, shards=8)):
+        case = {"kind": "generated-timed", "machine": c["machine"], "input": c["input"], "plans": c["plans"]}
+        parts = a.split("\t")
+        if parts[0] != "ok":
+            chk.dist("generated.model." + parts[0])
+            chk.count(cj(case), False)
+            continue
+        m = json.loads(parts[1])
+        if m["status"] in ("FUEL", "UNSUPPORTED") or m.get("tieFail") or enginerun.oracle_order_ambiguous(m) or r.errors:
+            chk.dist("generated.not_compared.%s" % ("engine-error" if r.errors else m["status"] if m["status"] in ("FUEL", "UNSUPPORTED")
+                                                    else "tie-or-order"))
+            chk.count(cj(case), False)
+            continue
+        chk.count(cj(case), enginerun.model_ms(m.get("endTime", 0)) > 0)
+        c01.timed_dist(chk, dict(c, timed=True), m, prefix="generated")
+        if r.status not in ("SUCCEEDED", "FAILED"):
+            chk.report("impl-differs-from-spec", case, impl={"status": r.status, "quiescent": r.quiescent}, model=c01.model_view(m),
+                       law="the execution ends (at the instant the reference semantics predicts)")
+            continue
+        mode, hp, nev = enginerun.compare_history(c["machine"], m, r.history, len(r.requests), timed=True,
+                                                  request_instants=[q["t"] for q in r.requests])
+        nmode, np_ = enginerun.compare_notifications(m, [x["body"]["detail"] for x in r.notifications], c["input"], timed=True)
+        chk.dist("generated.%s" % mode)
+        chk.dist("generated.%s.events" % mode, nev)
+        if cj(c01.impl_view(r)) != cj(c01.model_view(m)):
+            hp = [{"what": "outcome", "engine": c01.impl_view(r), "model": c01.model_view(m)}] + hp
+        if hp or np_:
+            chk.report("impl-differs-from-spec", case, impl={"differences": (hp + np_)[:4], "mode": mode}, model={"endTime": m.get("endTime")},
+                       law="every history event, request and the terminal notification happen at the instant the timed reference "
+                           "semantics predicts: waits are over at max(target, entry), a Task times out TimeoutSeconds after its entry, "
+                           "a retry starts IntervalSeconds x BackoffRate^k after the failure, a join is at the latest branch's end")
+
+
 def run(chk):
     quick = chk.tier == "quick"
     chk.lean_stage()
     check_waits(chk, quick)
     check_timeouts(chk, quick)
+    check_generated(chk, quick)
     chk.cov["rule"] = ("Wait by Seconds / SecondsPath / Timestamp / TimestampPath: targets written in 10 UTC-offset notations (incl. "
                        "+05:30, -03:30, +-23:59, +-00:01) x fraction forms x Z form, event delivered on time or 0.7-10 s late, and "
                        "redelivered after a crash mid-wait; under three process time zones (UTC, Asia/Kolkata, America/St_Johns) so the "
                        "engine's own EnteredTime/StartTime strings carry half-hour offsets; exit instant compared exactly with "
                        "max(target, delivery) where the target instant of a timestamp comes from the Lean RFC 3339 model; Task "
                        "TimeoutSeconds 1/2/5 x reply 1 ms before / after the deadline x none/Catch/Retry; execution TimeoutSeconds x "
-                       "Wait/Task x none/Catch-all/Retry-all; distinct = distinct case description")
+                       "Wait/Task x none/Catch-all/Retry-all; generated timed machines (machgen.timify) under the canonical schedule: "
+                       "every history timestamp, request instant and the stopDate compared exactly with the timed Asl.run "
+                       "(generated.* in the distribution); distinct = distinct case description")
 
 
 def replay(chk, path):
     with open(path) as f:
         rp = json.load(f)
     c = rp["case"]
+    if c["kind"] == "generated-timed":
+        from props import c01
+        r = enginerun.run_case(c["machine"], c["input"], {k: [tuple(o) for o in v] for k, v in c["plans"].items()}, max_steps=3000)
+        print("impl :", cj(c01.impl_view(r)))
+        for e in enginerun.history_events(r.history, timed=True):
+            print("   E", json.dumps(e)[:160])
+        a = common.driver([c01.model_line(c["machine"], c["input"], r.exec_arn, r.plans.oracle())])[0].split("\t")
+        if a[0] == "ok":
+            for e in enginerun.model_events(json.loads(a[1]), timed=True):
+                print("   M", json.dumps(e)[:160])
+        return 0
     if c["kind"] in ("task-timeout", "execution-timeout"):
         s, ea = run_task(c["machine"], c.get("reply_delay_ms", 99999))
         print("final:", cj(explore.final_view(s, ea)), "terminal at", term_time(s, ea))
